@@ -184,6 +184,19 @@ func (c *Ctx) diffChunk(cfg *DiffConfig, lo, hi int) {
 		c.CovSet("variants", strings.Join(varOf[r.gi][0], " ")+" vs "+strings.Join(varOf[r.gi][r.vi], " "))
 		ds := cfg.Compare(ref, out, r.cs, g)
 		if len(ds) == 0 {
+			if len(ref.Trace) > 1 || (ref.ErrNil && len(r.cs.Input) > 1) {
+				c.mu.Lock()
+				n := len(c.samples)
+				c.mu.Unlock()
+				if n < 5 {
+					tr := ref.Trace
+					if len(tr) > 4 {
+						tr = tr[:4]
+					}
+					c.Sample(map[string]any{"grammar": gast.Short(g), "reference_flags": strings.Join(varOf[r.gi][0], " "), "variant_flags": strings.Join(varOf[r.gi][r.vi], " "),
+						"input": fmt.Sprintf("%q", r.cs.Input), "entry": r.cs.Entry, "memoize": r.cs.Memo, "value_both": trunc(ref.Val), "errors_both": trunc(ref.ErrStr), "events_head": tr})
+				}
+			}
 			continue
 		}
 		d := ds[0]
